@@ -84,7 +84,9 @@ def scenario(pre: Preempt, where: str, offset: int, variant: str, raising: bool)
             called.append(n)
             alive_at_cb.append((n, t.is_alive()))
         if raising and n == 1:
-            raise RuntimeError('boom')
+            # `raising` True: an ordinary exception; a name: an exception that is not an `Exception` (it must be re-raised by close() all the same)
+            raise {'SystemExit': SystemExit(3), 'KeyboardInterrupt': KeyboardInterrupt(), 'CancelledError': asyncio.CancelledError()}.get(
+                raising if isinstance(raising, str) else '', RuntimeError('boom'))
 
     gates = {2: threading.Event(), 3: threading.Event()}
 
@@ -130,8 +132,8 @@ def scenario(pre: Preempt, where: str, offset: int, variant: str, raising: bool)
                 nonlocal early_exc
                 try:
                     cb.close()
-                except RuntimeError as e:
-                    early_exc = str(e)
+                except BaseException as e:  # noqa
+                    early_exc = f'{type(e).__name__}: {e}'
                 L(f'closeRet {"1" if early_exc else "-"}')
             L('closeCall')
             closer = threading.Thread(target=do_close)
@@ -182,8 +184,8 @@ def scenario(pre: Preempt, where: str, offset: int, variant: str, raising: bool)
         L('closeCall')
         try:
             cb.close()
-        except RuntimeError as e:
-            exc = str(e)
+        except BaseException as e:  # noqa
+            exc = f'{type(e).__name__}: {e}'
         L(f'closeRet {"1" if exc else "-"}')
     msgs = []
     if helper is not None and helper.is_alive():
@@ -196,7 +198,9 @@ def scenario(pre: Preempt, where: str, offset: int, variant: str, raising: bool)
         if al:
             msgs.append(f'callback for thread {n} ran while it was still alive')
     if raising and exc is None:
-        msgs.append('a callback raised but close() did not re-raise')
+        msgs.append(f"a callback raised {raising if isinstance(raising, str) else 'RuntimeError'} but close() did not re-raise it")
+    if raising and exc is not None and not exc.startswith(raising if isinstance(raising, str) else 'RuntimeError'):
+        msgs.append(f'a callback raised {raising if isinstance(raising, str) else "RuntimeError"}, close() raised {exc!r}')
     if not raising and exc is not None:
         msgs.append(f'close() raised {exc!r}')
     return {'log': log, 'msgs': msgs, 'reached': reached}
@@ -439,6 +443,9 @@ def run(chk: common.Check) -> None:
             idx += 1
         cases.append((idx, 'monitor', off, 'resume-first', True))
         idx += 1
+        if off % 3 == 0:
+            cases.append((idx, 'monitor', off, 'resume-first', ['SystemExit', 'KeyboardInterrupt', 'CancelledError'][(off // 3) % 3]))
+            idx += 1
     for off in reg_offs:
         for v in variants[:2]:
             cases.append((idx, 'register', off, v, False))
